@@ -89,6 +89,28 @@ def fault_plans(ctx, d):
         plans.append((f"emit-redirect-dev-full/b{b}", "write-failure:emit-redirect", ["--records-per-batch", b, "put", "-q", '@s=$x; emit > "/dev/full", @s'], recs(4000), "fail"))
         plans.append((f"dump-redirect-dev-full/b{b}", "write-failure:dump-redirect", ["--records-per-batch", b, "put", "-q", '@s[NR]=$x; end{dump > "/dev/full"}'], recs(4000), "fail"))
         plans.append((f"print-redirect-nonexistent-dir/b{b}", "write-failure:print-redirect", ["--records-per-batch", b, "put", "-q", 'print > "/nonexistent-dir/x", $a'], recs(N), "fail"))
+    # 7. a prepipe command that fails
+    for cmd in ("false", "exit 3", "cat /nonexistent-file-xyz <", "head -c 20; exit 2 #"):
+        plans.append((f"prepipe-fails:{cmd}", "prepipe-command-fails", ["--prepipe", cmd, "cat", good], b"", "fail"))
+    plans.append(("prepipex-fails", "prepipe-command-fails", ["--prepipex", "false", "cat", good], b"", "fail"))
+    plans.append(("prepipe-ok-control", "control", ["--prepipe", "cat", "cat", good], b"", ("ok", N)))
+    # 8. fan-out file targets whose writer fails (schema change under CSV), repeated: the error must survive the handler's close
+    hetero = b"a=1,b=2\na=3,b=4\nc=5\na=6,b=7\na=8,b=9\na=10,b=11\na=12,b=13\n"
+    for rep in range(10):
+        plans.append((f"tee-file-writer-error#{rep}", "fanout-writer-error", ["--ocsv", "tee", os.path.join(d, f"t{rep}.csv")], hetero, "fail"))
+        plans.append((f"redirect-tee-writer-error#{rep}", "fanout-writer-error", ["--ocsv", "put", "-q", 'tee > "%s", $*' % os.path.join(d, f"rt{rep}.csv")], hetero, "fail"))
+    plans.append(("split-writer-error", "fanout-writer-error", ["--ocsv", "split", "-m", "1", "--prefix", os.path.join(d, "sp")], hetero, "fail"))
+    # 9. several redirected outputs, one of which fails only at the end-of-stream flush, in every position
+    okf = os.path.join(d, "ok%d.txt")
+    small = recs(5)
+    for k, prog in enumerate([
+            'print > "/dev/full", $a; print > "%s", $x' % (okf % 1),
+            'print > "%s", $x; print > "/dev/full", $a' % (okf % 2),
+            'tee > "/dev/full", $*; print > "%s", $x' % (okf % 3),
+            'print > "%s", $x; tee > "/dev/full", $*; print > "%s", $a' % (okf % 4, okf % 5),
+            '@s[NR]=$x; emit > "/dev/full", @s; print > "%s", $a' % (okf % 6),
+            'print > "%s", $a; @s[NR]=$x; end{dump > "/dev/full"; print > "%s", "done"}' % (okf % 7, okf % 8)]):
+        plans.append((f"multi-redirect-flush-failure#{k}", "write-failure:multi-redirect", ["put", "-q", prog], small, "fail"))
     # 6. fault-free controls: exit 0 and complete output
     for b in batches:
         plans.append((f"control-cat/b{b}", "control", ["--records-per-batch", b, "cat"], recs(N), ("ok", N)))
